@@ -3,6 +3,8 @@ import DaeVerif.C13.DrainProofs
 import DaeVerif.C13.KeysProofs
 import DaeVerif.C13.TQStep
 import DaeVerif.C13.EPProofs
+import DaeVerif.C13.EPPool
+import DaeVerif.C13.EPIndex
 import DaeVerif.C13.EPC
 import DaeVerif.C13.RouteProofs
 import DaeVerif.C13.BatchProofs
